@@ -173,11 +173,17 @@ def run_mpe(case):
     freq = np.array(case["freq"], float)
     Sval = np.array(case["Sval"], float)
     Svec = np.array([[[complex(z[0], z[1]) for z in ln] for ln in row] for row in case["Svec"]])
+    sel = list(case["sel"])
+    keep = (freq.copy(), Sval.copy(), Svec.copy(), list(sel))
     try:
-        Fn, Phi = fdd.FDD_mpe(Sval, Svec, freq, list(case["sel"]), DF=case["DF"])
-        return None, np.asarray(Fn), np.asarray(Phi)
+        Fn, Phi = fdd.FDD_mpe(Sval, Svec, freq, sel, DF=case["DF"])
+        out = (None, np.asarray(Fn), np.asarray(Phi))
     except Exception as e:  # noqa: BLE001
-        return type(e).__name__, None, None
+        out = (type(e).__name__, None, None)
+    changed = [n for n, a, b in (("freq", freq, keep[0]), ("Sval", Sval, keep[1]), ("Svec", Svec, keep[2])) if not np.array_equal(a, b)]
+    if sel != keep[3]:
+        changed.append("sel_freq")
+    return out + (changed,)
 
 
 def judge_mpe(ctx, case, model_s, site="FDD_mpe"):
@@ -185,11 +191,14 @@ def judge_mpe(ctx, case, model_s, site="FDD_mpe"):
     freq = np.array(case["freq"], float)
     Sval = np.array(case["Sval"], float)
     Svec = np.array([[[complex(z[0], z[1]) for z in ln] for ln in row] for row in case["Svec"]])
-    exc, Fn, Phi = run_mpe(case)
+    exc, Fn, Phi, changed = run_mpe(case)
     merr, mres = parse_mpe(model_s)
     ctx.hist("mpe-outcome", exc or "ok")
     small = {k: case[k] for k in ("kind", "freq", "sel", "DF")}
     small.update(Sval=case["Sval"], Svec=case["Svec"])
+    if changed:
+        ctx.fail("oracle", "%s modifies its argument(s) %s in place (the stored tables are no longer the decomposition of Sy)" % (site, changed), small,
+                 key="C06:%s:args-mutated" % site)
     nontriv = False
     # ---- correspondence
     if merr == "NoModel":
@@ -350,7 +359,10 @@ def part_B(ctx):
         case = dict(kind="svalsvec", hermitian=herm, SD=[[[cplx(z) for z in ln] for ln in row] for row in SD])
         ctx.hist("svalsvec-shape", (nr, nc, "herm" if herm else "rect"))
         try:
-            S_val, S_vec = fdd.SD_svalsvec(SD.copy())
+            SD_in = SD.copy()
+            S_val, S_vec = fdd.SD_svalsvec(SD_in)
+            if not np.array_equal(SD_in, SD):
+                ctx.fail("oracle", "SD_svalsvec modifies the spectral matrix it is given", case, key="C06:SD_svalsvec:args-mutated")
         except Exception as e:  # noqa: BLE001
             ctx.fail("oracle", "SD_svalsvec raises %s on a %dx%d spectral matrix" % (type(e).__name__, nr, nc), case, key="C06:SD_svalsvec:raise")
             continue
@@ -473,12 +485,114 @@ def class_oracle(ctx, res, sel, DF, case, site, fn_on_grid=True):
                      key="C06:%s:unity" % site)
 
 
-def part_C(ctx):
+RES_FIELDS = ("freq", "Sy", "S_val", "S_vec")
+
+
+def snapshot(res):
+    return {k: np.array(getattr(res, k), copy=True) for k in RES_FIELDS}
+
+
+def unchanged(ctx, snap, res, case, site, by="mpe"):
+    """result.{freq,Sy,S_val,S_vec} are what run() stored: mpe must leave them bit-identical."""
+    bad = [k for k, v in snap.items() if np.asarray(getattr(res, k)).shape != v.shape or not np.array_equal(np.asarray(getattr(res, k)), v)]
+    if bad:
+        ctx.fail("oracle", "%s: result.%s changed by %s (the stored decomposition must stay that of result.Sy)" % (site, "/".join(bad), by), case,
+                 key="C06:%s:result-mutated" % site)
+    return not bad
+
+
+def inputs_same(ctx, triples, case, site):
+    """arrays / lists handed to the setup classes and to mpe come back bit-unchanged.  triples: (name, now, kept)."""
+    for name, now, kept in triples:
+        if isinstance(now, np.ndarray):
+            same = np.array_equal(now, kept)
+        elif len(now) and isinstance(now[0], np.ndarray):
+            same = len(now) == len(kept) and all(np.array_equal(x, y) for x, y in zip(now, kept))
+        else:
+            same = now == kept
+        if not same:
+            ctx.fail("oracle", "%s: the %s passed in is modified in place" % (site, name), case, key="C06:%s:args-mutated" % site)
+
+
+def narrow_band(ctx, spec):
+    """Conjugation convention from first principles, for both spectral estimators and every FDD-family class: a
+    narrow-band response x_c(t) = |a_c| cos(2 pi f0 t + arg a_c) with genuinely complex amplitude ratios (phase lags
+    far from 0/180 degrees) must give Phi / Phi[0] = a / a[0] - not conj(a)."""
+    from pyoma2.algorithms import EFDD, FDD, FDD_MS, FSDD
+    from pyoma2.setup import MultiSetup_PreGER, SingleSetup
+
+    fs, N, nxseg = 32.0, 4096, 128
+    df = fs / nxseg
+    f0 = float(spec["f0"])
+    a = np.array([1.0] + [m * np.exp(1j * np.deg2rad(l)) for m, l in zip(spec["mods"], spec["lags_deg"])])
+    nch = len(a)
+    g = np.random.default_rng(int(spec["noise_seed"]))
+    t = np.arange(N) / fs
+    x = np.real(a[None, :] * np.exp(2j * np.pi * f0 * t)[:, None]) + 1e-3 * g.standard_normal((N, nch))
+    x2 = np.real(a[None, :] * np.exp(2j * np.pi * f0 * t + 0.4j)[:, None]) + 1e-3 * g.standard_normal((N, nch))
+    tol = 0.1     # 'per' is exact to 2e-4, the correlogram estimator to 5e-2; conj(a) is at least 0.5 away for lags of 40..140 degrees
+    for method in spec.get("methods", ["per", "cor"]):
+        case = dict(spec, kind="narrow-band", method=method, a=[cplx(z) for z in a], fs=fs, N=N, nxseg=nxseg)
+        for cls, name in ((FDD, "FDD"), (EFDD, "EFDD"), (FSDD, "FSDD")):
+            Phi = None
+            for kw in (dict(DF2=2.0, sppk=1, npmax=4), dict(DF2=4.0, sppk=1, npmax=2), dict(DF2=1.0, sppk=0, npmax=3)):
+                ss = SingleSetup(x.copy(), fs=fs)
+                alg = cls(name="a", nxseg=nxseg, method_SD=method)
+                ss.add_algorithms(alg)
+                ss.run_by_name("a")
+                try:
+                    if cls is FDD:
+                        ss.mpe("a", sel_freq=[f0], DF=2 * df)
+                    else:
+                        ss.mpe("a", sel_freq=[f0], DF1=2 * df, **kw)
+                    Phi = np.asarray(alg.result.Phi)[:, 0]
+                    break
+                except Exception as e:  # noqa: BLE001
+                    if cls is FDD:
+                        ctx.fail("oracle", "FDD.mpe raises %s on a narrow-band record" % type(e).__name__, dict(case, cls=name), key="C06:FDD:raise")
+                        break
+            if Phi is None:
+                ctx.not_judged += 1
+                continue
+            ctx.count(dict(case, cls=name), nontrivial=True)
+            ctx.hist("narrow-band", (name, method))
+            got = Phi / Phi[0]
+            if got.shape != a.shape or np.abs(got - a).max() > tol:
+                ctx.fail("oracle", "%s (method_SD=%s): narrow-band response with channel amplitudes %s gives Phi/Phi[0] = %s (MAC %.3f; equals the conjugate: %s)"
+                         % (name, method, np.round(a, 3).tolist(), np.round(got, 3).tolist(), mac(got, a) if got.shape == a.shape else float("nan"),
+                            bool(got.shape == a.shape and np.abs(got - a.conj()).max() < tol)),
+                         dict(case, cls=name), key="C06:%s:narrow-band-amplitudes" % name)
+        # PreGER: the same physical response seen by two setups sharing the references 0 and 1
+        if nch >= 3:
+            c1, c2 = [0, 1, 2], [0, 1, nch - 1]
+            ms = MultiSetup_PreGER(fs=fs, ref_ind=[[0, 1], [0, 1]], datasets=[x[:, c1].copy(), x2[:, c2].copy()])
+            alg = FDD_MS(name="m", nxseg=nxseg, method_SD=method)
+            ms.add_algorithms(alg)
+            ms.run_by_name("m")
+            try:
+                ms.mpe("m", sel_freq=[f0], DF=2 * df)
+            except Exception as e:  # noqa: BLE001
+                ctx.fail("oracle", "FDD_MS.mpe raises %s on a narrow-band record" % type(e).__name__, dict(case, cls="FDD_MS"), key="C06:FDD_MS:raise")
+                continue
+            Phi = np.asarray(alg.result.Phi)[:, 0]
+            want = np.array([a[0], a[1], a[2], a[nch - 1]])
+            ctx.count(dict(case, cls="FDD_MS"), nontrivial=True)
+            ctx.hist("narrow-band", ("FDD_MS", method))
+            got = Phi / Phi[0]
+            if got.shape != want.shape or np.abs(got - want).max() > tol:
+                ctx.fail("oracle", "FDD_MS (method_SD=%s): narrow-band response with amplitudes %s gives Phi/Phi[0] = %s (equals the conjugate: %s)"
+                         % (method, np.round(want, 3).tolist(), np.round(got, 3).tolist(), bool(got.shape == want.shape and np.abs(got - want.conj()).max() < tol)),
+                         dict(case, cls="FDD_MS"), key="C06:FDD_MS:narrow-band-amplitudes")
+
+
+def part_C(ctx, corpus_nb=()):
     from pyoma2.algorithms import EFDD, EFDD_MS, FDD, FDD_MS, FSDD
     from pyoma2.setup import MultiSetup_PreGER, SingleSetup
 
     rng = ctx.np_rng
     fs = 32.0
+    for spec in corpus_nb:
+        narrow_band(ctx, spec)
     nrec = ctx.n(6, 30)
     for c in range(nrec):
         nch = int(rng.integers(2, 5))
@@ -494,26 +608,35 @@ def part_C(ctx):
         DF = float(df * rng.choice([1.0, 2.0, 3.5]))
         base = dict(kind="class", nch=nch, N=N, nxseg=nxseg, method=method, sel=sel, DF=DF, fs=fs, seed_case=c,
                     shapes=[[cplx(z) for z in r] for r in shapes], modes=[float(m) for m in modes])
+        # a second mpe call on the SAME object with other arguments: each call is judged against its own arguments
+        sel2 = [float(modes[1] + rng.choice([0.0, -df / 2]))]
+        DF2 = float(df * rng.choice([v for v in (1.0, 2.0, 3.5, 5.0) if v * df != DF]))
         for cls in (FDD, EFDD, FSDD):
-            ss = SingleSetup(x.copy(), fs=fs)
+            x_in = x.copy()
+            ss = SingleSetup(x_in, fs=fs)
             alg = cls(name="a", nxseg=nxseg, method_SD=method)
             ss.add_algorithms(alg)
             ss.run_by_name("a")
-            case = dict(base, cls=cls.__name__)
+            snap = snapshot(alg.result)
             ctx.hist("class", cls.__name__)
-            try:
-                if cls is FDD:
-                    ss.mpe("a", sel_freq=list(sel), DF=DF)
-                else:
-                    ss.mpe("a", sel_freq=list(sel), DF1=DF, DF2=2.0, sppk=1, npmax=4)
-            except Exception as e:  # noqa: BLE001
-                if cls is FDD:
-                    ctx.fail("oracle", "FDD.mpe raises %s on a valid band" % type(e).__name__, case, key="C06:FDD:raise")
-                else:
-                    ctx.not_judged += 1   # second stage (C07) could not fit: first stage not observable
-                continue
-            ctx.count(case, nontrivial=True)
-            class_oracle(ctx, alg.result, sel, DF, case, cls.__name__, fn_on_grid=cls is FDD)
+            for call, (sel_k, DF_k) in enumerate(((sel, DF), (sel2, DF2), (sel, DF))):
+                case = dict(base, cls=cls.__name__, call=call, sel=sel_k, DF=DF_k, earlier_calls=[[sel, DF], [sel2, DF2]][:call])
+                sel_in = list(sel_k)
+                try:
+                    if cls is FDD:
+                        ss.mpe("a", sel_freq=sel_in, DF=DF_k)
+                    else:
+                        ss.mpe("a", sel_freq=sel_in, DF1=DF_k, DF2=2.0, sppk=1, npmax=4)
+                except Exception as e:  # noqa: BLE001
+                    if cls is FDD:
+                        ctx.fail("oracle", "FDD.mpe raises %s on a valid band" % type(e).__name__, case, key="C06:FDD:raise")
+                    else:
+                        ctx.not_judged += 1   # second stage (C07) could not fit: first stage not observable
+                    continue
+                ctx.count(case, nontrivial=True)
+                inputs_same(ctx, (("data", x_in, x), ("sel_freq", sel_in, list(sel_k))), case, cls.__name__)
+                if unchanged(ctx, snap, alg.result, case, cls.__name__):
+                    class_oracle(ctx, alg.result, sel_k, DF_k, case, cls.__name__, fn_on_grid=cls is FDD)
         ctx.sample({k: base[k] for k in ("nch", "N", "nxseg", "method", "sel", "DF", "modes")})
 
     # multi-setup PreGER (at least two reference sensors: the ratio needs a second singular value)
@@ -538,74 +661,42 @@ def part_C(ctx):
             ref_ind.append([perm.index(r) for r in range(nref)])
         sel = [float(m + rng.choice([0.0, df / 2])) for m in modes]
         DF = float(df * rng.choice([1.0, 2.0, 3.0]))
+        sel2 = [float(modes[0] + rng.choice([0.0, df / 4]))]
+        DF2 = float(df * rng.choice([v for v in (1.0, 2.0, 3.0, 4.5) if v * df != DF]))
         for cls in (FDD_MS, EFDD_MS):
-            ms = MultiSetup_PreGER(fs=fs, ref_ind=[list(r) for r in ref_ind], datasets=[d.copy() for d in datasets])
+            d_in = [d.copy() for d in datasets]
+            ms = MultiSetup_PreGER(fs=fs, ref_ind=[list(r) for r in ref_ind], datasets=d_in)
             alg = cls(name="m", nxseg=nxseg, method_SD="per" if c % 2 else "cor")
             ms.add_algorithms(alg)
             ms.run_by_name("m")
-            case = dict(kind="class", cls=cls.__name__, nref=nref, nmov=nmov, nxseg=nxseg, sel=sel, DF=DF, seed_case=c, ref_ind=ref_ind)
+            snap = snapshot(alg.result)
             ctx.hist("class", cls.__name__)
-            try:
-                if cls is FDD_MS:
-                    ms.mpe("m", sel_freq=list(sel), DF=DF)
-                else:
-                    ms.mpe("m", sel_freq=list(sel), DF1=DF, DF2=2.0, sppk=1, npmax=4)
-            except Exception as e:  # noqa: BLE001
-                if cls is FDD_MS:
-                    ctx.fail("oracle", "FDD_MS.mpe raises %s on a valid band with %d references" % (type(e).__name__, nref), case, key="C06:FDD_MS:raise")
-                else:
-                    ctx.not_judged += 1
-                continue
-            ctx.count(case, nontrivial=True)
-            class_oracle(ctx, alg.result, sel, DF, case, cls.__name__, fn_on_grid=cls is FDD_MS)
+            for call, (sel_k, DF_k) in enumerate(((sel, DF), (sel2, DF2))):
+                case = dict(kind="class", cls=cls.__name__, nref=nref, nmov=nmov, nxseg=nxseg, sel=sel_k, DF=DF_k, seed_case=c, ref_ind=ref_ind, call=call,
+                            earlier_calls=[[sel, DF]][:call])
+                sel_in = list(sel_k)
+                try:
+                    if cls is FDD_MS:
+                        ms.mpe("m", sel_freq=sel_in, DF=DF_k)
+                    else:
+                        ms.mpe("m", sel_freq=sel_in, DF1=DF_k, DF2=2.0, sppk=1, npmax=4)
+                except Exception as e:  # noqa: BLE001
+                    if cls is FDD_MS:
+                        ctx.fail("oracle", "FDD_MS.mpe raises %s on a valid band with %d references" % (type(e).__name__, nref), case, key="C06:FDD_MS:raise")
+                    else:
+                        ctx.not_judged += 1
+                    continue
+                ctx.count(case, nontrivial=True)
+                inputs_same(ctx, (("datasets", d_in, datasets), ("sel_freq", sel_in, list(sel_k))), case, cls.__name__)
+                if unchanged(ctx, snap, alg.result, case, cls.__name__):
+                    class_oracle(ctx, alg.result, sel_k, DF_k, case, cls.__name__, fn_on_grid=cls is FDD_MS)
 
-    # conjugation convention from first principles: a narrow-band response with known complex amplitudes
-    for c in range(ctx.n(4, 12)):
-        nch = int(rng.integers(2, 4))
-        N, nxseg = 4096, 128
-        df = fs / nxseg
-        f0 = float(df * rng.integers(10, 50))
-        a = np.ones(nch, complex)
-        a[1:] = rng.uniform(0.3, 0.9, nch - 1) * np.exp(1j * rng.choice([0.7, -1.1, 2.0, -2.6, 1.3], size=nch - 1))
-        t = np.arange(N) / fs
-        x = np.real(a[None, :] * np.exp(2j * np.pi * f0 * t)[:, None]) + 1e-3 * rng.standard_normal((N, nch))
-        case = dict(kind="narrow-band", nch=nch, f0=f0, a=[cplx(z) for z in a], seed_case=c)
-        for cls, name in ((FDD, "FDD"), (EFDD, "EFDD")):
-            ss = SingleSetup(x.copy(), fs=fs)
-            alg = cls(name="a", nxseg=nxseg, method_SD="per")
-            ss.add_algorithms(alg)
-            ss.run_by_name("a")
-            try:
-                if cls is FDD:
-                    ss.mpe("a", sel_freq=[f0], DF=2 * df)
-                else:
-                    ss.mpe("a", sel_freq=[f0], DF1=2 * df, DF2=2.0, sppk=1, npmax=4)
-            except Exception:  # noqa: BLE001
-                ctx.not_judged += 1
-                continue
-            Phi = np.asarray(alg.result.Phi)[:, 0]
-            ctx.count(dict(case, cls=name), nontrivial=True)
-            got = Phi / Phi[0]
-            if np.abs(got - a).max() > 2e-2:
-                ctx.fail("oracle", "%s: narrow-band response with channel amplitudes %s gives Phi/Phi[0] = %s (conjugate: %s)"
-                         % (name, np.round(a, 3).tolist(), np.round(got, 3).tolist(), bool(np.abs(got - a.conj()).max() < 2e-2)),
-                         dict(case, cls=name), key="C06:%s:narrow-band-amplitudes" % name)
-        # PreGER: the same physical response seen by two setups sharing two references
-        if nch >= 3:
-            d1 = x[:, :nch]
-            x2 = np.real(a[None, :] * np.exp(2j * np.pi * f0 * t + 0.4j)[:, None]) + 1e-3 * rng.standard_normal((N, nch))
-            ms = MultiSetup_PreGER(fs=fs, ref_ind=[[0, 1], [0, 1]], datasets=[d1.copy(), x2.copy()])
-            alg = FDD_MS(name="m", nxseg=nxseg, method_SD="per")
-            ms.add_algorithms(alg)
-            ms.run_by_name("m")
-            ms.mpe("m", sel_freq=[f0], DF=2 * df)
-            Phi = np.asarray(alg.result.Phi)[:, 0]
-            want = np.concatenate([a[:2], a[2:], a[2:]])
-            ctx.count(dict(case, cls="FDD_MS"), nontrivial=True)
-            got = Phi / Phi[0]
-            if got.shape != want.shape or np.abs(got - want).max() > 2e-2:
-                ctx.fail("oracle", "FDD_MS: narrow-band response with amplitudes %s gives Phi/Phi[0] = %s" % (np.round(want, 3).tolist(), np.round(got, 3).tolist()),
-                         dict(case, cls="FDD_MS"), key="C06:FDD_MS:narrow-band-amplitudes")
+    # conjugation convention from first principles (both estimators, FDD / EFDD / FSDD / FDD_MS) - see narrow_band
+    for c in range(ctx.n(3, 12)):
+        nch = int(rng.integers(3, 5))
+        lags = [float(l) for l in rng.choice([40.0, 75.0, 110.0, -40.0, -75.0, -110.0, 140.0, -140.0], size=nch - 1, replace=False)]
+        narrow_band(ctx, dict(f0=float(0.5 * rng.integers(5, 26)), mods=[float(m) for m in np.round(rng.uniform(0.4, 0.9, nch - 1), 3)],
+                              lags_deg=lags, noise_seed=int(rng.integers(0, 2**31)), methods=["per", "cor"]))
 
 
 def find_band(rng, freq, sv, df):
@@ -775,6 +866,8 @@ def run(ctx):
     n = ctx.n(130, 2200)
     for k in range(n):
         cases.append(gen_mpe_case(rng, ctx, malformed=(k % 7 == 3)))
+    corpus_nb = [c for c in cases[:ncorp] if c and c.get("kind") == "narrow-band"]
+    ncorp = len([c for c in cases[:ncorp] if c and "freq" in c])
     cases = [c for c in cases if c and "freq" in c]
     # scale families: base table (sigma1 peaks away from the ratio peak, no ties) and the same table times 2^k
     fam = {}
@@ -814,6 +907,6 @@ def run(ctx):
     ctx.extra["t_A"] = round(time.time() - ctx.t0, 1)
     part_B(ctx)
     ctx.extra["t_AB"] = round(time.time() - ctx.t0, 1)
-    part_C(ctx)
+    part_C(ctx, corpus_nb)
     part_C_scale(ctx)
     ctx.extra["t_ABC"] = round(time.time() - ctx.t0, 1)
